@@ -296,4 +296,56 @@ theorem readAllWith_rep (c : Codec) (hg : Good c) (ks : List Nat) (r : Reader) (
         have := ih r' pend' bs' (fun k hk => hks k (by simp [hk])) hl' hne' hrep'
         simp only [this, Option.map_some, htot]
 
+
+/-- a represented state stays represented when the pending output is marked as consumed -/
+theorem Rep.consume {c : Codec} {r : Reader} {pend : Bytes} {bs : List Bytes} (h : Rep c r pend bs) :
+    Rep c { r with offset := r.output.length } [] bs := by
+  cases h with
+  | startFramed => exact Rep.startFramed _ _ (by assumption) (by assumption) (by simp)
+  | startUnframed => exact Rep.startUnframed _ _ (by assumption) (by assumption) (by assumption) (by assumption) (by simp)
+  | framed => exact Rep.framed _ _ _ (by assumption) (by assumption) (by assumption) (by simp)
+  | doneUnframed => exact Rep.doneUnframed _ _ (by assumption) (by assumption) (by assumption) (by simp)
+
+/-- `WriteTo`: everything pending and every remaining block, empty blocks included -/
+theorem writeTo_rep (c : Codec) (hg : Good c) (bs : List Bytes) (fuel : Nat) (r : Reader) (pend : Bytes)
+    (hf : bs.length < fuel) (hsm : ∀ b ∈ bs, (c.enc b).length < 256 ^ 4) (hrep : Rep c r pend bs) :
+    writeTo c fuel r = some (pend ++ bs.flatten) := by
+  induction bs generalizing fuel r pend with
+  | nil =>
+    obtain ⟨f1, rfl⟩ : ∃ f1, fuel = f1 + 1 := ⟨fuel - 1, by omega⟩
+    have hpe := hrep.pend_eq
+    have hrc := readChunk_rep c hg _ [] 0 hrep.consume hsm
+    simp only [writeTo, hpe]
+    rcases hrc with ⟨_, he⟩ | ⟨b, bs', hb, _⟩
+    · cases hch : readChunk c { r with offset := r.output.length } 0 with
+      | mk r' ch => rw [hch] at he; simp only at he; subst he; simp
+    · simp at hb
+  | cons b bs' ih =>
+    obtain ⟨f1, rfl⟩ : ∃ f1, fuel = f1 + 1 := ⟨fuel - 1, by omega⟩
+    have hpe := hrep.pend_eq
+    have hrc := readChunk_rep c hg _ (b :: bs') 0 hrep.consume hsm
+    simp only [writeTo, hpe]
+    rcases hrc with ⟨hb, _⟩ | ⟨b0, bs0, hb, hcase⟩
+    · simp at hb
+    · simp only [List.cons.injEq] at hb
+      obtain ⟨hb1, hb2⟩ := hb
+      subst hb1; subst hb2
+      have hsm' : ∀ x ∈ bs', (c.enc x).length < 256 ^ 4 := fun x hx => hsm x (by simp [hx])
+      have hf' : bs'.length < f1 := by simp only [List.length_cons] at hf; omega
+      cases hch : readChunk c { r with offset := r.output.length } 0 with
+      | mk r' ch =>
+        rw [hch] at hcase
+        simp only at hcase
+        rcases hcase with ⟨hle, he, hr'⟩ | ⟨_, he, hr', _, _⟩
+        · subst he
+          have hb0 : b = [] := List.eq_nil_of_length_eq_zero (by omega)
+          subst hb0
+          simp only
+          rw [ih f1 r' [] hf' hsm' hr']
+          simp
+        · subst he
+          simp only
+          rw [ih f1 r' b hf' hsm' hr']
+          simp
+
 end KV.Model.Xerial
